@@ -264,3 +264,35 @@ def register(gen, T):
                    f"def mslIntrinsicsReserved : Bool := {build_call(mg, 'msl')}\n")
         out.append(T.footer("Reserved"))
         return "".join(out)
+
+    @gen("UsageOperands")
+    def usage_operands():
+        """ir/src/ir_expressions.rs `enum Expression`: which fields of each variant hold sub-expressions (operands).  Together
+        with Gen.UsageTables.exprArms (tools/gens/c02.py: which fields gather_usage_for_expression descends into, per match arm
+        and per or-pattern alternative) this yields the obligation `every operand is descended into`."""
+        from rustsrc import enum_variants
+        src = T.src("ir/src/ir_expressions.rs")
+        rows = []
+        for v, rest in enum_variants(src, "Expression"):
+            rest = re.sub(r'//[^\n]*', '', rest).strip()
+            if not rest:
+                fields = []
+            elif rest.startswith('('):
+                j = matching(rest, 0)
+                fields = [f.strip() for f in split_top(rest[1:j], ',') if f.strip()]
+            else:
+                raise ExtractError(f"Expression::{v}: struct-like variant {rest[:40]!r} is not understood")
+            # a field is an operand when its type mentions Expression or ConstructorSlot (which wraps an Expression)
+            rows.append((v, [bool(re.search(r'\b(Expression|ConstructorSlot)\b', f)) for f in fields], fields))
+        slot = re.search(r'pub struct ConstructorSlot \{(.*?)\}', src, re.S)
+        if not slot or not re.search(r'\bexpr\s*:\s*Expression\b', slot.group(1)):
+            raise ExtractError("ConstructorSlot no longer wraps `expr: Expression`")
+        out = [T.header("UsageOperands", ["ir/src/ir_expressions.rs"])]
+        out.append("/-- `enum Expression`: variant ↦ per field, does it hold sub-expressions (Box<Expression>, Vec<Expression>, "
+                   "Vec<ConstructorSlot>) -/\ndef exprOperandFields : List (String × List Bool) := [\n")
+        out.append(",\n".join(f"  ({lean_str(v)}, [{', '.join('true' if b else 'false' for b in fl)}])  -- {', '.join(fs)}"
+                              if False else f"  ({lean_str(v)}, [{', '.join('true' if b else 'false' for b in fl)}])"
+                              for v, fl, fs in rows))
+        out.append("\n]\n")
+        out.append(T.footer("UsageOperands"))
+        return "".join(out)
